@@ -274,9 +274,70 @@ def structured_payloads():
   return items
 
 
+def config_matrix(_):
+  """USE_INSECURE_UNPICKLER as the daemons read it from carbon.conf ([program] and [program:instance] blocks):
+  whenever the configuration says 'off' (or says nothing) the listeners must use the safe unpickler."""
+  import os
+  settings = env.boot()
+  env.reset_state()
+  install_hook()
+  from carbon import conf
+  d = os.path.join(env.scratch(), 'c13conf-%d' % os.getpid())
+  os.makedirs(d, exist_ok=True)
+  path = os.path.join(d, 'carbon.conf')
+  bad = []
+  n = 0
+  hostile = [('REDUCE canary', pk.prog(pk.g_global('mc.canary', 'fire') + pk.tup(pk.i(1)) + b'R', 2), [('mc.canary', 'fire')]),
+             ('GLOBAL os.system in metric slot', pk.prog(nestings(pk.g_global('os', 'system'), 1)['metric@1'], 2), [('os', 'system')])]
+  saved = settings.get('USE_INSECURE_UNPICKLER')
+  try:
+    for program in ('carbon-cache', 'carbon-relay', 'carbon-aggregator'):
+      section = program[len('carbon-'):]
+      for base in (None, True, False):
+        for inst_mode in ('no-instance', None, True, False):
+          lines = ['[%s]' % section, 'USER =']
+          if base is not None:
+            lines.append('USE_INSECURE_UNPICKLER = %s' % base)
+          instance = None
+          if inst_mode != 'no-instance':
+            instance = 'b'
+            lines += ['', '[%s:b]' % section, 'LINE_RECEIVER_PORT = 2103']
+            if inst_mode is not None:
+              lines.append('USE_INSECURE_UNPICKLER = %s' % inst_mode)
+          open(path, 'w').write('\n'.join(lines) + '\n')
+          want = inst_mode if inst_mode in (True, False) else (base if base is not None else False)
+          n += 1
+          rep = {'config': lines, 'program': program, 'instance': instance}
+          try:
+            ps = conf.read_config(program, {'config': path, 'instance': instance, 'pidfile': None, 'logdir': None}, ROOT_DIR=d)
+          except Exception as e:   # noqa
+            bad.append(('config:exception', 'read_config(%s, instance=%r) raised %r for\n%s' % (program, instance, e, '\n'.join(lines)), rep))
+            continue
+          got = ps['USE_INSECURE_UNPICKLER']
+          if bool(got) != bool(want):
+            bad.append(('config:insecure-unpickler', '%s instance=%r reads USE_INSECURE_UNPICKLER=%r, the configuration says %r:\n%s' % (
+              program, instance, got, want, '\n'.join(lines)), rep))
+            continue
+          if not want:
+            settings['USE_INSECURE_UNPICKLER'] = got
+            probe = Probe()
+            settings['USE_INSECURE_UNPICKLER'] = got
+            for what, payload, refs in hostile:
+              v = probe.check(payload, refs, what + ' under ' + program)
+              if v:
+                bad.append((v[0], v[1], {'payload_hex': payload.hex(), 'refs': refs, 'what': what}))
+  finally:
+    settings['USE_INSECURE_UNPICKLER'] = saved
+  return n, bad[:3]
+
+
 def run(ctx):
   load_daemon_modules()
   install_hook()
+  cn, cbad = core.pmap(config_matrix, [0], fresh=True)[0]
+  for key, what, rep in cbad:
+    ctx.violation(key, what, rep)
+  ctx.add(config_file_cases=cn)
   pairs = all_pairs()
   nmods = len(set(m for m, _ in pairs))
   pairs = core.seeded_order(pairs, ctx.seed)
@@ -324,6 +385,11 @@ def replay(path):
   rep = body['replay']
   load_daemon_modules()
   install_hook()
+  if 'config' in rep:
+    n, bad = config_matrix(0)
+    for key, what, _ in bad:
+      print('oracle: [%s] %s' % (key, what))
+    return 1 if bad else 0
   p = Probe()
   payload = bytes.fromhex(rep['payload_hex'])
   v = p.check(payload, [tuple(r) for r in rep['refs']], rep['what'])
